@@ -477,8 +477,19 @@ func (la *lockAnalysis) analyse(fn *ssa.Function) (reports []LockReport, orderEd
 			for _, bo := range blocks {
 				for _, k := range held.keys() {
 					h := held[k]
+					construct := FuncKey(fn) + " ⇒ " + bo.Chain[len(bo.Chain)-1] + ": " + bo.Desc + " while holding " + h.String()
+					// a wait that sits in new helpers only is the caller's own wait
+					allNew := len(bo.Chain) > 1
+					for _, k := range bo.Chain[1:] {
+						if g := la.p.Fn(k); g == nil || !isNewHelper(g) {
+							allNew = false
+						}
+					}
+					if allNew {
+						construct = FuncKey(fn) + ": " + bo.Desc + " while holding " + h.String()
+					}
 					add(LockReport{Rule: "R3", Fn: fn, Site: la.p.InstrPos(call), Held: h, What: bo.Desc, Chain: bo.Chain,
-						Construct: FuncKey(fn) + " ⇒ " + bo.Chain[len(bo.Chain)-1] + ": " + bo.Desc + " while holding " + h.String()})
+						Construct: construct})
 				}
 			}
 		}
